@@ -636,6 +636,12 @@ def gen_C11(tier, seed, unit, nunits):
     return out
 
 import gen_ext_ops, gen_ext_from, gen_ext_bits
+def gen_C05x(tier, seed, unit, nunits):
+    """C05 requests + the From / LossyFrom<Fixed> for f32|f64 impls and lossy_into (tools/gen_ext_from.py)"""
+    out = dict(gen_C05(tier, seed, unit, nunits))
+    for b, lines in gen_ext_from.gen(tier, seed, unit, nunits).items():
+        out.setdefault(b, []).extend(l for l in lines if l.startswith('fcvt_'))
+    return out
 def gen_C07x(tier, seed, unit, nunits):
     """C07 requests + the integer-remainder forms and `%` impl variants of tools/gen_ext_bits.py"""
     out = dict(gen_C07(tier, seed, unit, nunits))
@@ -672,7 +678,7 @@ PROPS = {
                 assumptions=['serde form {bits}: not exercised (no serde_json in the offline registry); little-endian target for *_ne_bytes']),
     'C03': dict(lean_modules=['SfxProps.C03'], bins=['conv'], profiles=['rel'], gen=gen_C03),
     'C04': dict(lean_modules=['SfxProps.C04', 'SfxProps.C04Prim'], bins=['conv'], profiles=['chk', 'rel'], gen=gen_C04x),
-    'C05': dict(lean_modules=['SfxProps.C05'], bins=['conv'], profiles=['chk', 'rel'], gen=gen_C05),
+    'C05': dict(lean_modules=['SfxProps.C05'], bins=['conv'], profiles=['chk', 'rel'], gen=gen_C05x),
     'C12': dict(lean_modules=['SfxProps.C12', 'SfxProps.C12Tan'], bins=['math'], profiles=['chk', 'rel'], gen=gen_C12),
     'C13': dict(lean_modules=['SfxProps.C13'], bins=['math'], profiles=['rel'], gen=gen_C13, oracle=True),
     'C14': dict(lean_modules=['SfxProps.C14'], bins=['math'], profiles=['rel'], gen=gen_C14, oracle=True),
